@@ -124,6 +124,7 @@ structure CoreSt where
   prev : Option Core := none
   shim : ShimView := {}
   rmPlaced : List String := []   -- keys the RM itself reported as bound (external placement / recovery)
+  lostInflight : List String := []   -- real halves of cross-node replacements whose ask was released while in flight (known class I7r)
 
 def firstSome (l : List (Unit → Option String)) : Option String := l.findSome? (fun f => f ())
 
@@ -154,7 +155,12 @@ def stepClauses (op : String) (_j : Json) (pre post : Core) (msgs : List Json) :
                else some s!"C01.bind-unschedulable-node {key}@{node}")
             else if i.reqNode != "" && i.reqNode != node then some s!"C01.bind-not-required-node {key}@{node}"
             -- (an ask that requires this node cancels the reservations of others: tryRequiredNode)
-            else if !(n.reservations.isEmpty || n.reservations.contains key || i.release.isSome || i.reqNode == node) then some s!"C01.bind-node-reserved-for-other {key}@{node}"
+            -- (a reservation the scheduler cancelled in the same cycle — timeout, preemption — is gone afterwards: only a
+            --  reservation of another ask that is still there after the bind means the node was given away while reserved)
+            else if !(n.reservations.isEmpty || n.reservations.contains key || i.release.isSome || i.reqNode == node) &&
+                    (match post.findNode node with
+                     | some pn => pn.reservations.any (fun k => k != key && n.reservations.contains k)
+                     | none => false) then some s!"C01.bind-node-reserved-for-other {key}@{node}"
             else if !(fitInStd (some (addX n.available extra)) (some i.res)) then some s!"C01.bind-does-not-fit {key}@{node} ask={showRes i.res} available={showRes n.available}"
             else none),
     -- C02: a scheduling cycle creates no new over-max usage
@@ -174,6 +180,14 @@ def stepClauses (op : String) (_j : Json) (pre post : Core) (msgs : List Json) :
         match before with
         | some b => if usageOver b then none else some s!"C05.sched-new-overquota {u.1}@{e.path}"
         | none => some s!"C05.sched-new-overquota {u.1}@{e.path}")),
+    -- C04 / C13: a rejected item leaves no trace: node, queue, application ledgers and user trackers exactly as before
+    fun _ =>
+      let rejected := msgs.any (fun m => s m "t" == "alloc-rejected" || s m "t" == "app-rejected" || s m "t" == "node-rejected")
+      let accepted := msgs.any (fun m => s m "t" == "alloc" || s m "t" == "app-accepted" || s m "t" == "node-accepted")
+      if !rejected || accepted then none else
+      match ledgerDiff pre post with
+      | some d => some s!"C04.rejected-leaves-trace {d}"
+      | none => if pre.users != post.users || pre.groups != post.groups then some "C04.rejected-leaves-trace user-trackers" else none,
     -- C11: first allocation of an application not yet counted as running passes the gate
     fun _ => if op != "schedule" then none else
       newAllocs.findSome? (fun m =>
@@ -219,18 +233,41 @@ def coreStep (st : CoreSt) (j : Json) : Except String (CoreSt × String) := do
     tag "C09" (resOK post) ++
     tag "C06" (gangOK post) ++
     tag "C10" (lifecycleOK post) ++
+    tag "C10" (idleOK post) ++
+    tag "C02" (rootMaxOK post) ++
     tag "C11" (countersOK post) ++
     tag "C05" (usageOK post) ++
     (match st.prev with
      | some pre => (stepClauses op j pre post msgs)
      | none => []) ++
     tag "C04" protoErr
-  -- consequences of one root cause are marked: an allocation of a terminated application left on its node (I7t)
-  -- also shows in the allocation counter and in the user's tracked usage
-  let orphan := fails.any (fun f => f.startsWith "C03.I7t")
+  -- consequences of one root cause are marked: an allocation of a terminated application that was never released
+  -- (I7t) also shows in the allocation counter and in the user's tracked usage, also after its node is gone
+  let orphan := fails.any (fun f => f.startsWith "C03.I7t") || post.apps.any (fun a => !a.live && a.items.any (·.bound))
   let fails := if orphan then fails.map (fun f =>
-      if f.startsWith "C03.I10 " then "C03.I10+I7t " ++ f.drop 8
-      else if f.startsWith "C05.usage-ne-sum " then "C05.usage-ne-sum+I7t " ++ f.drop 17 else f) else fails
+      if f.startsWith "C03.I10 " then "C03.I10+I7t " ++ (f.drop 8).toString
+      else if f.startsWith "C05.usage-ne-sum " then "C05.usage-ne-sum+I7t " ++ (f.drop 17).toString else f) else fails
+  -- Known class (KNOWN_FINDINGS C03.I7r / C04): the RM releases a real ask whose placeholder replacement is in flight.
+  -- removeAllocation does not find it among the allocations and only drops the ask: the real half already placed on
+  -- another node stays there, and the confirmation of the swap later announces the released ask as a new allocation.
+  let relKey := if op == "release" then (jStr (fldD j "key" (.str ""))).toOption.getD "" else ""
+  let relApp := if op == "app-remove" then (jStr (fldD j "id" (.str ""))).toOption.getD ""
+                else if op == "release" && relKey == "" then (jStr (fldD j "app" (.str ""))).toOption.getD "" else ""
+  let releasedNow : List String := match st.prev with
+    | some pre =>
+        (pre.liveApps.map (fun a => (a.items.filter (fun i => i.inflightReal && ((relKey != "" && i.key == relKey) || (relApp != "" && a.id == relApp)))).map (·.key))).flatten
+    | none => []
+  let lost := st.lostInflight ++ releasedNow
+  let st' : CoreSt := { st' with lostInflight := lost }
+  let keyOf (f : String) : String := ((f.splitOn " ").getLast!.splitOn "@").head!
+  let fails := fails.map (fun f =>
+      if (f.startsWith "C03.I7 allocation not listed by its application " || f.startsWith "C03.I7 allocation of unknown application ") && lost.contains (keyOf f) then "C03.I7r " ++ (f.drop 7).toString
+      else if f.startsWith "C04." && lost.contains (keyOf f) then
+        -- every protocol clause about such a key is a consequence of the same root cause
+        (match f.splitOn " " with
+         | tag :: rest => tag ++ "+released-inflight-replacement " ++ " ".intercalate rest
+         | [] => f)
+      else f)
   -- one-step refinement: the model stepped from the implementation's previous state must reach its new state
   let sj (k : String) := (jStr (fldD j k (.str ""))).toOption.getD ""
   let msgT (m : Json) (k : String) := (jStr (fldD m k (.str ""))).toOption.getD ""
